@@ -74,6 +74,10 @@ def gen(rng, tier):
             for k, h in enumerate(hs):
                 if h and h["sh_type"] in (4, 9):
                     data = elfgen.patch(data, meta, "shdr", "sh_entsize", rng.choice([0, 1, 8, 12, 16, 24, 25]), k)
+        if hs and rng.random() < 0.15:       # typed views over sections flagged SHF_COMPRESSED: they see the payload after the compression header
+            for k, h in enumerate(hs):
+                if h and h["sh_type"] in (3, 4, 7, 9) and rng.random() < 0.6:
+                    data = elfgen.patch(data, meta, "shdr", "sh_flags", h["sh_flags"] | 0x800, k)
         ps0 = fileq.py_phdrs(o0, data) if o0 else None
         if ps0 and rng.random() < 0.25:     # the PT_DYNAMIC segment designates bytes outside the file while the .dynamic section is fine
             for j, ph in enumerate(ps0):
